@@ -205,4 +205,29 @@ theorem c04_agreed_key_ecdh_es (P : Prims) (E : Env) (T : KeyTables) (a : JweAlg
   rw [concatOtherInfo_congr headers (eHeaders o r) _ _ _ halg henc' hapu hapv]
   exact hk
 
+/-- **ECDH-1PU** (direct or with key wrap, the `tag`-aware KDF input included): the decrypting side — holding the
+sender's public key — derives the key the encrypting side derived, given the two Diffie-Hellman symmetries (`hdhe` for the
+ephemeral pair incl. the export/import of `epk`, `hdhs` for the static sender/recipient pair). -/
+theorem c04_agreed_key_ecdh_1pu (P : Prims) (E : Env) (T : KeyTables) (a : JweAlgRow) (enc : JweEncRow)
+    (hcls : (a.cls == "ECDH1PUAlgModel") = true) (o : EObj) (r : ERecipient) (eph spriv : Key)
+    (heph : r.ephemeral = some eph) (hsend : r.senderKey = some spriv)
+    (rd : Recipient) (spub : Key) (hrs : rd.senderKey = some spub) (headers : Dict) (d : Dict) (epk : Key) (k : Bytes) (tag : Option Bytes)
+    (henc : encryptAgreedKey P E a enc o r tag = .ok k)
+    (hepk : headers.get? "epk" = some (.obj d)) (himp : importEpk P T rd.key.kty (.obj d) = .ok epk)
+    (hdhe : exchangeDeriveKey P E rd.key epk = exchangeDeriveKey P E eph r.key)
+    (hdhs : exchangeDeriveKey P E rd.key spub = exchangeDeriveKey P E spriv r.key)
+    (hkt : a.checkKeyType rd.key = .ok ()) (hkts : a.checkKeyType spub = .ok ())
+    (halg : headers.get? "alg" = (eHeaders o r).get? "alg") (henc' : headers.get? "enc" = (eHeaders o r).get? "enc")
+    (hapu : headers.get? "apu" = (eHeaders o r).get? "apu") (hapv : headers.get? "apv" = (eHeaders o r).get? "apv") :
+    decryptAgreedKey P E T a enc headers rd tag = .ok k := by
+  unfold encryptAgreedKey at henc
+  simp only [heph, hsend, Jose.ofOpt, hcls, bind_eq_ok, if_true, ensure_eq_ok] at henc
+  obtain ⟨e0, he0, _, hchk, s0, hs0, zs, hzs, ze, hze, hk⟩ := henc
+  cases he0; cases hs0
+  unfold decryptAgreedKey
+  simp only [hcls, if_true, hchk, ensure, hepk, hrs, Jose.ofOpt, hkt, hkts, himp, hdhe, hdhs, hzs, hze, bind, Except.bind]
+  unfold deriveKeyConcatKdf at hk ⊢
+  rw [concatOtherInfo_congr headers (eHeaders o r) _ _ _ halg henc' hapu hapv]
+  exact hk
+
 end Jose.C04
